@@ -72,6 +72,7 @@ type Ledger struct {
 	Clock *Clock
 
 	mu             sync.Mutex
+	onFunded       func(who string, req channel.FundingReq)
 	accounts       map[string]map[uint64]*big.Int // wallet address key -> asset -> balance
 	names          map[string]string              // wallet address key -> party name
 	chans          map[channel.ID]*Chan
@@ -295,6 +296,14 @@ func verifyState(params *channel.Params, s *channel.State, sigs []wallet.Sig) er
 
 // Fund deposits exactly Agreement[asset][Idx] from the caller's account and
 // waits until every participant has funded.
+// SetOnFunded installs a hook that runs in every Fund call after the channel
+// is completely funded and before the call returns (nil removes it).
+func (l *Ledger) SetOnFunded(f func(who string, req channel.FundingReq)) {
+	l.mu.Lock()
+	defer l.mu.Unlock()
+	l.onFunded = f
+}
+
 func (v *View) Fund(ctx context.Context, req channel.FundingReq) error {
 	l := v.L
 	l.active.Add(1)
@@ -383,10 +392,15 @@ func (v *View) Fund(ctx context.Context, req channel.FundingReq) error {
 	l.conservation("fund")
 	l.log(call)
 	ch := c.fundedCh
+	hook := l.onFunded
 	l.mu.Unlock()
 	l.active.Add(-1)
 	select {
 	case <-ch:
+		if hook != nil {
+			// the scenario may delay the return of a funder (a slow chain node)
+			hook(v.Who, req)
+		}
 		return nil
 	case <-ctx.Done():
 		return errors.WithStack(channel.FundingTimeoutError{})
